@@ -177,3 +177,11 @@ Section Gauss.
   Definition gz (g : gauss) : K S := kofZ (fst g) + ki * kofZ (snd g).
   Definition cc_of_table (tab : list (list gauss)) (a b : N) : K S := gz (tab_get tab a b).
 End Gauss.
+
+(* MultiformOperator.collapse numbers the rows (an extra column appended before sorting) and picks the factors
+   through that column.  In the model the rows are the elements of a list and are merged directly: a row is
+   identified by its position, an unbounded natural number.  The implementation matches this only if the dtype
+   of its index column can hold every row number; [bound] is the largest value that dtype holds (regenerated
+   from the source), None when there is none. *)
+Definition index_column_unbounded (bound : option N) : Prop :=
+  forall n_rows : N, match bound with None => True | Some m => (n_rows <= m)%N end.
